@@ -26,7 +26,8 @@ PROPS["C01"] = {
             P("test", "VerifFileRoundTrip", must_reach=("end", "largebytes", "pb-root", "plain-bytes-node"), w=2, k=1, maxn=6),
             P("test", "VerifFileRoundTrip", w=3, k=2, maxn=4, minlen=1),
             P("test", "VerifFileRoundTrip", w=2, k=1, maxn=3, distinct=0),
-            P("test", "VerifReaderMenu", must_reach=("end", "cidv0", "pb-leaf", "no-filesize", "no-blocksizes")),
+            P("test", "VerifFileRoundTrip", must_reach=("end", "other-chunkers"), w=2, k=1, maxn=3, chunker=1),
+            P("test", "VerifReaderMenu", must_reach=("end", "cidv0", "pb-leaf", "pb-leaf-typed-raw", "no-filesize", "no-blocksizes")),
         ],
         "thorough": [
             P("test", "VerifFileRoundTrip", must_reach=("end", "largebytes", "pb-root", "plain-bytes-node"), w=2, k=1, maxn=33, maxbuf=5),
@@ -39,10 +40,10 @@ PROPS["C01"] = {
         ],
     },
     "bounds": {
-        "quick": "builder->reader: all contents of 0..6 size-1 chunks at width 2 (3 interior levels reached at 5), 1..8 bytes in size-2 chunks at width 3, buffers 1..3, direct/lazy/preload; free chunk aliasing for <=3 chunks; reader over hand-assembled DAG menu (raw/dag-pb leaves, inline data, FileSize/BlockSizes present or absent, CIDv0/v1, trickle-like mixed depth) with <=2 children per node, depth <=2",
+        "quick": "builder->reader: all contents of 0..6 size-1 chunks at width 2 (3 interior levels reached at 5), 1..8 bytes in size-2 chunks at width 3, buffers 1..3, direct/lazy/preload; free chunk aliasing for <=3 chunks; default / rabin / buzhash chunkers on inputs of 0..3 bytes (below their chunk sizes: one leaf); reader over hand-assembled DAG menu (raw/dag-pb leaves typed File or Raw, inline data, FileSize/BlockSizes present or absent, CIDv0/v1, trickle-like mixed depth) with <=2 children per node, depth <=2",
         "thorough": "width 2: 0..33 chunks (7 levels); width 3: 9..40; width 4: 5..40; width 5: 24..27 (around 5^2); size-3 chunks; buffers 1..5; free aliasing <=5 chunks; reader menu depth 3 (slimmed below the top node)",
     },
-    "assumptions": ["size-K chunker only (real boxo SizeSplitter is executed); content-defined chunkers (rabin, buzhash) are outside the claim",
+    "assumptions": ["multi-chunk files are produced with the size-K chunker (real boxo SizeSplitter executed); the default and content-defined chunkers (rabin, buzhash) are executed only on inputs below their minimum chunk size (chunk boundaries decided by a rolling hash of symbolic bytes did not finish: 15 min for 18 bytes)",
                     "model LinkSystem: real codecs and Store/Load paths, collision-free model hash instead of SHA-256"],
     "outside": "rabin/buzhash/default-chunker boundaries, width 174 itself (code is width-generic), files longer than the bound, reference-importer DAGs beyond the menu grammar",
 }
@@ -63,7 +64,7 @@ PROPS["C02"] = {
             P("data/builder", "VerifAutoShardThreshold", must_reach=("end", "plain", "sharded")),
             P("test", "VerifShardedDir", lg=3, entries=2, maxdepth=2),
             P("test", "VerifPlainDirMap", entries=2),
-            P("test", "VerifHamtReaderWellFormed", must_reach=("end", "member", "non-member", "iterate")),
+            P("test", "VerifHamtReaderWellFormed", must_reach=("end", "member", "non-member", "iterate", "enumerate-then-lookup", "lookup-then-enumerate")),
         ],
         "thorough": [
             P("hamt", "VerifHashBitsNext", must_reach=("end", "too-deep")),
@@ -81,7 +82,8 @@ PROPS["C02"] = {
             P("data/builder", "VerifBuilderDeepChain", must_reach=("end", "too-deep", "deep-ok")),
                      P("hamt", "VerifReaderDeepChain", must_reach=("end", "too-deep", "deep-ok")),
             P("test", "VerifPlainDirMap", entries=3),
-            P("test", "VerifHamtReaderWellFormed", must_reach=("end", "member", "non-member", "iterate")),
+            P("test", "VerifHamtReaderWellFormed", must_reach=("end", "member", "non-member", "iterate", "enumerate-then-lookup", "lookup-then-enumerate")),
+            P("hamt", "VerifEngineRunes", len=2),  # engine self-check: built-in rune conversions == interpreted unicode/utf8
         ],
     },
     "bounds": {
@@ -101,15 +103,20 @@ PROPS["C03"] = {
                   P("test", "VerifPathTraversal", must_reach=("end", "present", "absent")),
                   P("test", "VerifPathSymbolicSegment", must_reach=("end", "names-the-entry", "names-the-sibling", "names-nothing"), namelen=2, seglen=2),
                   P("test", "VerifPathSymbolicSegment", must_reach=("end", "names-nothing"), namelen=1, seglen=3),
-                  P("test", "VerifPathSymbolicSegment", must_reach=("end", "names-the-entry", "names-nothing"), namelen=3, seglen=3)],
+                  P("test", "VerifPathSymbolicSegment", must_reach=("end", "names-the-entry", "names-nothing"), namelen=3, seglen=3),
+                  P("test", "VerifPathShardedProbe", must_reach=("end", "present", "absent"), sharetargets=0),
+                  P("hamt", "VerifMatchKey")],
         "thorough": [P(".", "VerifPathSelectorShape", must_reach=("end", "empty-path"), len=5),
                      P("test", "VerifPathTraversal", must_reach=("end", "present", "absent")),
                      P("test", "VerifPathSymbolicSegment", must_reach=("end", "names-the-entry", "names-the-sibling", "names-nothing"), namelen=2, seglen=2),
                      P("test", "VerifPathSymbolicSegment", must_reach=("end", "names-nothing"), namelen=2, seglen=5),
                      P("test", "VerifPathSymbolicSegment", must_reach=("end", "names-the-entry", "names-nothing"), namelen=5, seglen=5),
-                     P("test", "VerifPathSymbolicSegment", must_reach=("end", "names-nothing"), namelen=4, seglen=6)],
+                     P("test", "VerifPathSymbolicSegment", must_reach=("end", "names-nothing"), namelen=4, seglen=6),
+                     P("test", "VerifPathShardedProbe", must_reach=("end", "present", "absent"), sharetargets=0),
+                     P("test", "VerifPathShardedProbe", must_reach=("end", "present", "absent"), sharetargets=0, lg=4),
+                     P("hamt", "VerifMatchKey")],
     },
-    "bounds": {"quick": "S1: every ASCII path string of 3 bytes x 4 target selectors x matchPath on/off: selector == reference tree, compiles; S3: the real go-ipld-prime traversal (interpreted) over one tree (plain dirs, HAMT dir, 3-block file) x 8 paths (present, absent, redundant slashes, '..') x 3 target selectors x matchPath, symbolic file contents: matches, order, bytes, blocks requested; S3-symbolic: plain directory with an arbitrary ASCII entry name (1..3 bytes) and path 'd/<seg>' with arbitrary ASCII segment bytes (2..3), two spellings of the path, match / preload targets: matched iff seg equals an entry name, with that entry's bytes",
+    "bounds": {"quick": "S1: every ASCII path string of 3 bytes x 4 target selectors x matchPath on/off: selector == reference tree, compiles; S3: the real go-ipld-prime traversal (interpreted) over one tree (plain dirs, HAMT dir, 3-block file) x 8 paths (present, absent, redundant slashes, '..') x 3 target selectors x matchPath, symbolic file contents: matches, order, bytes, blocks requested; S3-symbolic: plain directory with an arbitrary ASCII entry name (1..3 bytes) and path 'd/<seg>' with arbitrary ASCII segment bytes (2..3), two spellings of the path, match / preload targets: matched iff seg equals an entry name, with that entry's bytes; S3-sharded: 'h/<seg>' into a 2-entry sharded directory (any bucket pattern incl. a one-level collision) where seg is an entry or a non-member with an ARBITRARY hash that is unrelated to / a proper suffix / a proper prefix / an extension of an entry's name; the name-comparison kernel MatchKey for all names/keys of the bound",
                "thorough": "S1 with every ASCII path of 5 bytes; S3-symbolic with names to 5 and segments to 6 bytes"},
     "assumptions": ["non-ASCII path bytes are outside S1 (ParsePath splits on '/' only; segments are opaque)"],
     "outside": "trees other than the one in S3; explore-all target in S3",
@@ -120,12 +127,14 @@ PROPS["C04"] = {
     "programs": {
         "quick": [P("test", "VerifReadSeekHistory", must_reach=("end", "seek-negative", "read-at-or-past-end"), w=2, k=2, maxlen=5, steps=2),
                   P("test", "VerifReadSeekHistory", must_reach=("end", "read-at-or-past-end"), w=2, k=2, maxlen=5, steps=3, readers=2, maxbuf=2, readonly=1),
-                  P("test", "VerifReadSeekHistory", must_reach=("end", "seek-negative", "read-at-or-past-end"), w=2, k=2, maxlen=5, steps=3, offrange=7, maxbuf=2)],
+                  P("test", "VerifReadSeekHistory", must_reach=("end", "seek-negative", "read-at-or-past-end"), w=2, k=2, maxlen=5, steps=3, offrange=7, maxbuf=2),
+                  P("test", "VerifReadSeekHistory", must_reach=("end", "seek-negative", "read-at-or-past-end"), w=2, k=1, maxlen=3, steps=2, distinct=0)],
         "thorough": [P("test", "VerifReadSeekHistory", must_reach=("end", "seek-negative", "read-at-or-past-end"), w=2, k=2, maxlen=6, steps=3),
                      P("test", "VerifReadSeekHistory", must_reach=("end", "seek-negative", "read-at-or-past-end"), w=2, k=2, maxlen=5, steps=3, readers=2, maxbuf=2),
-                     P("test", "VerifReadSeekHistory", must_reach=("end", "seek-negative", "read-at-or-past-end"), w=2, k=1, maxlen=5, steps=2, maxbuf=4)],
+                     P("test", "VerifReadSeekHistory", must_reach=("end", "seek-negative", "read-at-or-past-end"), w=2, k=1, maxlen=5, steps=2, maxbuf=4),
+                     P("test", "VerifReadSeekHistory", must_reach=("end", "seek-negative", "read-at-or-past-end"), w=2, k=1, maxlen=4, steps=3, offrange=7, maxbuf=2, distinct=0)],
     },
-    "bounds": {"quick": "files of 0..5 bytes at width 2 / size-2 (single raw block, root+2, root+3 -> 2 interior levels); histories of 2 operations with symbolic int64 offsets |off|<=2^40, all three whence values, buffers 1..3; histories of 3 operations with |off|<=7; plus two readers of one node interleaved in every order over 3 reads",
+    "bounds": {"quick": "files of 0..5 bytes at width 2 / size-2 (single raw block, root+2, root+3 -> 2 interior levels); histories of 2 operations with symbolic int64 offsets |off|<=2^40, all three whence values, buffers 1..3; histories of 3 operations with |off|<=7; plus two readers of one node interleaved in every order over 3 reads; contents with freely repeated chunks (one block linked at several positions) up to 3 chunks, 2 operations",
                "thorough": "histories of 3 operations; two readers with seeks; 3 interior levels"},
     "assumptions": ["offsets beyond +-2^40 (int64 wrap-around) are outside the claim"],
     "outside": "histories longer than the bound; more than two readers",
@@ -135,17 +144,22 @@ PROPS["C04"] = {
 PROPS["C05"] = {
     "programs": {
         "quick": [P("test", "VerifFileRangeLoads", must_reach=("end", "single-block"), w=2, k=2, maxlen=6),
-                  P("test", "VerifHamtReaderWellFormed", must_reach=("end", "member", "non-member", "iterate")),
+                  P("test", "VerifFileRangeLoads", must_reach=("end", "second-range"), w=2, k=1, maxlen=4, ranges=2),
+                  P("test", "VerifFileRangeLoads", must_reach=("end",), w=2, k=1, maxlen=4, distinct=0),
+                  P("test", "VerifHamtReaderWellFormed", must_reach=("end", "member", "non-member", "iterate", "enumerate-then-lookup", "lookup-then-enumerate")),
                   P("test", "VerifPathTraversal", must_reach=("end", "present", "absent"))],
         "thorough": [P("test", "VerifFileRangeLoads", must_reach=("end", "single-block"), w=2, k=2, maxlen=10),
                      P("test", "VerifFileRangeLoads", must_reach=("end",), w=3, k=1, maxlen=10),
-                     P("test", "VerifHamtReaderWellFormed", must_reach=("end", "member", "non-member", "iterate")),
+                     P("test", "VerifFileRangeLoads", must_reach=("end", "second-range"), w=2, k=1, maxlen=6, ranges=2),
+                     P("test", "VerifFileRangeLoads", must_reach=("end", "second-range"), w=2, k=2, maxlen=5, ranges=3),
+                     P("test", "VerifFileRangeLoads", must_reach=("end",), w=2, k=1, maxlen=5, distinct=0),
+                     P("test", "VerifHamtReaderWellFormed", must_reach=("end", "member", "non-member", "iterate", "enumerate-then-lookup", "lookup-then-enumerate")),
                      P("test", "VerifPathTraversal", must_reach=("end", "present", "absent"))],
     },
-    "bounds": {"quick": "files 1..6 bytes (width 2, size-2): every range [a,b), loaded set == blocks meeting the range + ancestors; HAMT lookups (member, and non-member with an arbitrary 64-bit hash) load exactly the shards on the hash path, in order; path traversal loads only path + entity blocks",
+    "bounds": {"quick": "files 1..6 bytes (width 2, size-2): every range [a,b), loaded set == blocks meeting the range + ancestors; two ranges read one after the other through ONE reader (absolute or relative Seek between them, forwards or backwards; files to 4 chunks): loaded set == what the two ranges need; contents with repeated chunks; HAMT lookups (member, and non-member with an arbitrary 64-bit hash) load exactly the shards on the hash path, in order; path traversal loads only path + entity blocks",
                "thorough": "files up to 10 bytes / 10 chunks at widths 2 and 3"},
     "assumptions": ["interior file nodes carry BlockSizes (true for every DAG this builder or the reference writes)"],
-    "outside": "subset-matcher traversals (only Seek+ReadFull ranges are explored)",
+    "outside": "subset-matcher traversals (only Seek+ReadFull ranges are explored); how often a block is requested (the property speaks of which blocks)",
 }
 
 # ---------------------------------------------------------------- C06
@@ -153,6 +167,8 @@ PROPS["C06"] = {
     "programs": {
         "quick": [P("test", "VerifFileFullReadOrder", must_reach=("end", "preload"), w=2, k=1, maxlen=6),
                   P("test", "VerifFileMissingBlock", w=2, k=1, maxlen=5),
+                  P("test", "VerifFileFullReadOrder", must_reach=("end", "preload", "repeated-block"), w=2, k=1, maxlen=4, distinct=0),
+                  P("test", "VerifFileMissingBlock", w=2, k=1, maxlen=4, distinct=0),
                   P("test", "VerifHamtPreload", must_reach=("end", "missing")),
                   P("test", "VerifPathTraversal", must_reach=("end", "present", "absent"))],
         "thorough": [P("test", "VerifFileFullReadOrder", must_reach=("end", "preload"), w=2, k=1, maxlen=12),
@@ -171,13 +187,17 @@ PROPS["C07"] = {
     "validate_tests": "TestRefBalancedMatchesBoxo|TestBuilderMatchesBoxo",
     "programs": {
         "quick": [P("test", "VerifFileStructure", must_reach=("end", "empty"), w=2, k=1, maxn=9),
-                  P("test", "VerifFileStructure", w=3, k=1, maxn=13, minn=1)],
+                  P("test", "VerifFileStructure", w=3, k=1, maxn=13, minn=1),
+                  P("test", "VerifFileStructure", w=2, k=1, maxn=4, distinct=0),
+                  P("test", "VerifFileStructure", w=3, k=1, maxn=4, distinct=0)],
         "thorough": [P("test", "VerifFileStructure", must_reach=("end", "empty"), w=2, k=1, maxn=33),
                      P("test", "VerifFileStructure", w=3, k=1, maxn=40, minn=1),
                      P("test", "VerifFileStructure", w=4, k=1, maxn=40, minn=1),
-                     P("test", "VerifFileStructure", w=2, k=3, maxn=6, minn=1)],
+                     P("test", "VerifFileStructure", w=2, k=3, maxn=6, minn=1),
+                     P("test", "VerifFileStructure", w=2, k=1, maxn=5, distinct=0),
+                     P("test", "VerifFileStructure", w=3, k=1, maxn=5, distinct=0)],
     },
-    "bounds": {"quick": "every chunk count 0..9 at width 2 and 1..13 at width 3 (size-1 chunks, arbitrary distinct contents): stored DAG == refBalanced (kinds, child lists, order, FileSize, BlockSizes, Tsize), returned size == cumulative",
+    "bounds": {"quick": "every chunk count 0..9 at width 2 and 1..13 at width 3 (size-1 chunks, arbitrary distinct contents), and every content of 0..4 chunks with freely repeated chunks (identical siblings, identical subtrees) at widths 2 and 3: stored DAG == refBalanced (kinds, child lists, order, FileSize, BlockSizes, Tsize), returned size == cumulative",
                "thorough": "n <= 33 (width 2), <= 40 (widths 3, 4); short last chunk"},
     "assumptions": ["same structure and field values => same bytes => same CID rests on the determinism of the dag-pb codec and SHA-256 (dependencies); refBalanced is validated natively against boxo balanced.Layout for n<=40, w=2,3,4 (/verif/validate)"],
     "outside": "chunk counts above the bound; content-defined chunkers",
@@ -192,7 +212,7 @@ PROPS["C08"] = {
                   P("hamt", "VerifHashBitsNext", must_reach=("end", "too-deep")),
                   P("data/builder", "VerifFormatLinkName"),
                   P("hamt", "VerifMatchKey"), P("hamt", "VerifIsValueLink"), P("hamt", "VerifTransformName"),
-                  P("test", "VerifHamtReaderWellFormed", must_reach=("end", "member", "non-member", "iterate"))],
+                  P("test", "VerifHamtReaderWellFormed", must_reach=("end", "member", "non-member", "iterate", "enumerate-then-lookup", "lookup-then-enumerate"))],
         "thorough": [P("test", "VerifShardedDir", lg=3, entries=3, maxdepth=2),
                      P("hamt", "VerifMatchKey"), P("hamt", "VerifIsValueLink"), P("hamt", "VerifTransformName"),
                      P("test", "VerifShardedDir", lg=4, entries=2, maxdepth=2),
@@ -203,7 +223,7 @@ PROPS["C08"] = {
                      P("data/builder", "VerifFormatLinkName"),
                      P("data/builder", "VerifBuilderDeepChain", must_reach=("end", "too-deep", "deep-ok")),
                      P("hamt", "VerifReaderDeepChain", must_reach=("end", "too-deep", "deep-ok")),
-                     P("test", "VerifHamtReaderWellFormed", must_reach=("end", "member", "non-member", "iterate"))],
+                     P("test", "VerifHamtReaderWellFormed", must_reach=("end", "member", "non-member", "iterate", "enumerate-then-lookup", "lookup-then-enumerate"))],
     },
     "bounds": {"quick": "builder output == refHAMT (structure, link names, bitfield without leading zero bytes, Tsizes, returned size) for 2 entries, fanout 8, depth<=2; bit-slice and link-name kernels over all values; reader on hand-built locally well-formed, non-canonical shard trees (what insert/remove histories leave behind)",
                "thorough": "3 entries; fanout 16; unrestricted buckets; sizes up to 2^40; collision chains to the 64-bit limit"},
@@ -242,17 +262,22 @@ PROPS["C10"] = {
         "quick": [P("test", "VerifShardedDirDeterminism", lg=3, entries=2, maxdepth=2),
                   P("test", "VerifPlainDirDeterminism", entries=3),
                   P("test", "VerifFileFragmentation", w=2, k=2, maxlen=5),
+                  P("test", "VerifFileFragmentation", must_reach=("end", "default-chunker"), w=2, k=2, maxlen=4, chunker=1),
+                  P("test", "VerifFileFragmentation", w=2, k=1, maxlen=4, distinct=0),
                   P("data/builder", "VerifEstimateDirSize"),
                   P("data/builder", "VerifAutoShardThreshold", must_reach=("end", "plain", "sharded")),
                   P("test", "VerifQuickBuilder", must_reach=("end",))],
         "thorough": [P("test", "VerifShardedDirDeterminism", lg=3, entries=3, maxdepth=2),
                      P("test", "VerifPlainDirDeterminism", entries=4),
                      P("test", "VerifFileFragmentation", w=2, k=3, maxlen=7),
+                     P("test", "VerifFileFragmentation", must_reach=("end", "default-chunker"), w=2, k=3, maxlen=6, chunker=1),
+                     P("test", "VerifFileFragmentation", must_reach=("end", "content-defined-chunker"), w=2, k=2, maxlen=3, chunker=2),
+                     P("test", "VerifFileFragmentation", w=2, k=1, maxlen=5, distinct=0),
                      P("data/builder", "VerifEstimateDirSize"),
                      P("data/builder", "VerifAutoShardThreshold", must_reach=("end", "plain", "sharded")),
                      P("test", "VerifQuickBuilder", must_reach=("end",))],
     },
-    "bounds": {"quick": "sharded dir: 2 entries, fanout 8, depth<=2, built twice: every Go-map iteration order inside the shard builder x both entry orders (2-safety in one path); plain dir: 3 entries, all 6 orders; auto-shard decision at threshold-1/0/+1 with mixed link lengths in both orders; file: 0..5 bytes size-2, every fragmentation with fragments 1..3; quick builder map directory under every map order",
+    "bounds": {"quick": "sharded dir: 2 entries, fanout 8, depth<=2, built twice: every Go-map iteration order inside the shard builder x both entry orders (2-safety in one path); plain dir: 3 entries, all 6 orders; auto-shard decision at threshold-1/0/+1 with mixed link lengths in both orders; file: 0..5 bytes size-2, every fragmentation with fragments 1..3, also with repeated chunks, and with the default chunker (both spellings; thorough: rabin, buzhash) on 0..4 bytes; quick builder map directory under every map order",
                "thorough": "3 entries sharded (all 6 orders x map orders), 4 entries plain, files to 7 bytes size-3"},
     "assumptions": ["the Go runtime's randomised map order is over-approximated by 'any permutation' (explorer-chosen)"],
     "outside": "rabin/buzhash under fragmentation",
@@ -282,12 +307,14 @@ PROPS["C12"] = {
     "programs": {
         "quick": [P("test", "VerifFileMissingBlock", w=2, k=1, maxlen=5),
                   P("test", "VerifFileKthLoadFails", w=2, k=1, maxlen=5),
+                  P("test", "VerifFileMissingBlock", w=2, k=1, maxlen=4, distinct=0),
+                  P("test", "VerifFileKthLoadFails", w=2, k=1, maxlen=4, distinct=0),
                   P("test", "VerifHamtMissingShards", must_reach=("end", "lookup-blocked", "iterate"))],
         "thorough": [P("test", "VerifFileMissingBlock", w=2, k=1, maxlen=9), P("test", "VerifFileMissingBlock", w=3, k=2, maxlen=12),
                      P("test", "VerifFileKthLoadFails", w=2, k=1, maxlen=9),
                      P("test", "VerifHamtMissingShards", must_reach=("end", "lookup-blocked", "iterate"))],
     },
-    "bounds": {"quick": "files 2..5 chunks (width 2): every single block missing (not-found or arbitrary I/O error) x buffers 1..2: exact prefix then non-EOF load error; the k-th load failing for symbolic k; hand-built HAMTs (3 shapes, up to 3 sub-shards over 3 levels): every subset of missing shards: lookups crossing one report the load error, iteration terminates, yields exactly the reachable entries once, one error per missing shard met",
+    "bounds": {"quick": "files 2..5 chunks (width 2): every single block missing (not-found or arbitrary I/O error) x buffers 1..2: exact prefix then non-EOF load error; the k-th load failing for symbolic k; both also over contents with repeated chunks (<= 4 chunks); hand-built HAMTs (3 shapes, up to 3 sub-shards over 3 levels): every subset of missing shards: lookups crossing one report the load error, iteration terminates, yields exactly the reachable entries once, one error per missing shard met",
                "thorough": "files to 9 / 12 chunks"},
     "assumptions": [], "outside": "",
 }
@@ -326,9 +353,9 @@ PROPS["C14"] = {
 PROPS["C15"] = {
     "programs": {
         "quick": [P("test", "VerifLinkMapContract", must_reach=("end", "absent-key", "present-key"), links=2),
-                  P("test", "VerifHamtReaderWellFormed", must_reach=("end", "member", "non-member", "iterate"))],
+                  P("test", "VerifHamtReaderWellFormed", must_reach=("end", "member", "non-member", "iterate", "enumerate-then-lookup", "lookup-then-enumerate"))],
         "thorough": [P("test", "VerifLinkMapContract", must_reach=("end", "absent-key", "present-key"), links=3),
-                     P("test", "VerifHamtReaderWellFormed", must_reach=("end", "member", "non-member", "iterate")),
+                     P("test", "VerifHamtReaderWellFormed", must_reach=("end", "member", "non-member", "iterate", "enumerate-then-lookup", "lookup-then-enumerate")),
                      P("test", "VerifShardedDir", lg=3, entries=3, maxdepth=2)],
     },
     "bounds": {"quick": "link lists of 0..2 links (names absent or 0..2 arbitrary bytes, so empty and duplicate names arise as solver cases; sizes present or not), plain directory and generic link map, probe key of 0..2 arbitrary bytes; 4 hand-built well-formed HAMT shapes",
@@ -398,16 +425,18 @@ PROPS["C19"] = {
 PROPS["C20"] = {
     "programs": {
         "quick": [P("test", "VerifFileFullReadOrder", must_reach=("end", "preload"), w=2, k=1, maxlen=6),
-                  P("test", "VerifHamtReaderWellFormed", must_reach=("end", "member", "non-member", "iterate")),
+                  P("test", "VerifFileFullReadOrder", must_reach=("end", "preload", "repeated-block"), w=2, k=1, maxlen=4, distinct=0),
+                  P("test", "VerifHamtReaderWellFormed", must_reach=("end", "member", "non-member", "iterate", "enumerate-then-lookup", "lookup-then-enumerate")),
                   P("test", "VerifHamtPreload", must_reach=("end", "missing")),
                   P("test", "VerifPathTraversal", must_reach=("end", "present", "absent"))],
         "thorough": [P("test", "VerifFileFullReadOrder", must_reach=("end", "preload"), w=2, k=1, maxlen=12),
                      P("test", "VerifFileFullReadOrder", must_reach=("end", "preload"), w=3, k=1, maxlen=13),
-                     P("test", "VerifHamtReaderWellFormed", must_reach=("end", "member", "non-member", "iterate")),
+                     P("test", "VerifFileFullReadOrder", must_reach=("end", "preload", "repeated-block"), w=2, k=1, maxlen=5, distinct=0),
+                     P("test", "VerifHamtReaderWellFormed", must_reach=("end", "member", "non-member", "iterate", "enumerate-then-lookup", "lookup-then-enumerate")),
                      P("test", "VerifHamtPreload", must_reach=("end", "missing")),
                      P("test", "VerifPathTraversal", must_reach=("end", "present", "absent"))],
     },
-    "bounds": {"quick": "files 0..6 chunks (width 2): first-request order of a full sequential read and of preload == independent depth-first link-order walk, each block once; HAMT iteration / Length / preload request shards in depth-first link order; lookups request path shards root-to-leaf; path traversal requests path blocks root-to-target",
+    "bounds": {"quick": "files 0..6 chunks (width 2): first-request order of a full sequential read and of preload == independent depth-first link-order walk of the DISTINCT blocks (first occurrences; contents with repeated chunks up to 4 chunks included); HAMT iteration / Length / preload request shards in depth-first link order; lookups request path shards root-to-leaf; path traversal requests path blocks root-to-target",
                "thorough": "files to 12 / 13 chunks at widths 2, 3"},
     "assumptions": ["the shard cache is a Go map: any dependence of request order on its iteration order would show up under the engine's insertion-order maps only if the code iterated it; the code is also checked with explorer-chosen map orders in C10/C16"],
     "outside": "",
